@@ -1009,8 +1009,10 @@ class C09(Property):
                 res.count('conc:started-again', sum(1 for k, o in enumerate(ops) if o[0] == 'spawn'
                                                    and any(p[0] == 'spawn' and p[1] == o[1] for p in ops[:k])))
             res.violations += vs
-            if any(o.startswith('HARNESS-EXC') for o in obs):
-                res.notes.append(f'harness exception: {obs[-1]} on {c}')
+            if any(o.startswith('HARNESS-EXC') for o in obs):       # the case could not be driven: nothing was compared
+                res.notes.append(f'harness exception: {obs[-1]} on {c}'[:600])
+                res.disagreements.append(Disagreement(c, obs[-1][:300], '(the harness could not drive the implementation '
+                                                      'on this case)', 'harness'))
                 continue
             if model is not None:
                 res.traces_validated += 1
